@@ -334,6 +334,19 @@ func (fr *frame) autoInvariants(li *loopInfo, st *State, entryPhis map[*ssa.Phi]
 		if k, ok := fr.monotonePhi(li, p); ok && k > 0 {
 			fr.c.assume(st, app("Bool", "<=", ev, fr.vals[p]))
 		}
+		if p.Comment == "rangeindex" {
+			// i = phi[-1, i+1]; loop continues while i+1 < len: i < len is inductive (len >= 0)
+			for _, in := range li.head.Instrs {
+				if bo, ok := in.(*ssa.BinOp); ok && bo.Op == token.LSS {
+					if inc, ok := bo.X.(*ssa.BinOp); ok && inc.Op == token.ADD && inc.X == ssa.Value(p) {
+						if _, defined := fr.vals[bo.Y]; defined {
+							bound := fr.vals[bo.Y]
+							fr.c.assume(st, Implies(le(IntLit(0), bound), lt(fr.vals[p], bound)))
+						}
+					}
+				}
+			}
+		}
 	}
 }
 
